@@ -1343,7 +1343,10 @@ class ItemSpaceParent(ItemFactoryImpl, BaseNamespaceReferrer, HasFormula):
         return key in self.param_spaces
 
     def get_value_from_key(self, key):
-        return self.param_spaces[key].interface
+        # Evaluated again when the ItemSpace was discarded meanwhile
+        # (recalculation of the dependents of an assigned value)
+        node = key_to_node(self, key)
+        return self.system.executor.eval_node(node).interface
 
 
 _base_space_impl_base = (
